@@ -381,7 +381,7 @@ func init() {
 	}
 	core.Register(&core.Prop{
 		ID: "C06",
-		Rule: fmt.Sprintf("product generator (rapid): immutable place kind (const scalar / struct / fixed array / array of structs / dynamic array, const inside a method, index variable of a two-variable for loop - also when its name shadows an outer local, parameter or loop index -, catch error variable - also shadowing a local -, &T parameter of struct / array / scalar / dynamic array type, &T receiver, local &T to a struct / array) x access path (ident, paren, field chains, constant and negative index, combinations up to depth 4) x mutation form (=, += -= *=, ++ --, &' borrow typed and inferred, passing &' to a &' parameter, calling a &'-receiver method, append) x context (plain, if, else, while, for-range, match arm, match default, closure body, block, nested) = %d combinations. Oracle: `ferret -t` rejects the program with an error; control twin = the same program with the binding made mutable (let, &'T, a local stand-in for loop index / catch variable) must be accepted, otherwise the case is discarded as not expressible. non-trivial = twin accepted (the rejection can only be about mutability); distinct = (kind, path, form, context)", total),
+		Rule: fmt.Sprintf("product generator (rapid): immutable place kind (const scalar / struct / fixed array / array of structs / dynamic array, const inside a method, index variable of a two-variable for loop - also when its name shadows an outer local, parameter or loop index -, catch error variable - scalar or struct-typed, also shadowing a local -, &T parameter of struct / array / scalar / dynamic array type, &T receiver, local &T to a struct / array) x access path (ident, paren, field chains, constant and negative index, combinations up to depth 4) x mutation form (=, += -= *=, ++ --, &' borrow typed and inferred, passing &' to a &' parameter, calling a &'-receiver method, append) x context (plain, if, else, while, for-range, match arm, match default, closure body, block, nested) = %d combinations. Oracle: `ferret -t` rejects the program with an error; control twin = the same program with the binding made mutable (let, &'T, a local stand-in for loop index / catch variable) must be accepted, otherwise the case is discarded as not expressible. non-trivial = twin accepted (the rejection can only be about mutability); distinct = (kind, path, form, context)", total),
 		Gen:        c06Gen,
 		New:        func() any { return &c06Case{} },
 		Check:      c06Check,
